@@ -514,8 +514,12 @@ pub fn generate(prop: &str, tier: &str, seed: u64, out: &Path, nshards: usize, r
             let info = crate::c17::RetainInfo::from_json(&input["retain"]);
             ctx.push_pair_full("replay", input["pair_kind"].as_str().unwrap_or("same"), (&ra, &sa), (&rb, &sb), &perm, info.as_ref());
         } else {
-            let spec: SettingsSpec = serde_json::from_value(input["settings"].clone()).unwrap();
             let reg = reggen::to_registry(&input["registry"]);
+            // a replay recorded by another property's check (C03 / C04 family cases) has no settings
+            let mut spec: SettingsSpec = serde_json::from_value(input["settings"].clone()).unwrap_or_default();
+            if input["settings"].is_null() {
+                spec.ops.extend(bit_order_subs(&reg));
+            }
             let expect = input.get("expect").and_then(|e| if e.is_null() { None } else {
                 Some((e["kind"].as_str().unwrap().to_string(),
                       e["nums"].as_array().unwrap().iter().map(|x| x.as_u64().unwrap() as u128).collect::<Vec<_>>())) });
